@@ -1,10 +1,10 @@
-package main
+package lib
+
+// Generated contracts and programs shared by the C36 (concurrency) and C31 (metering vs. history) harnesses.
 
 import (
 	"fmt"
 	"strings"
-
-	"cvh/lib"
 )
 
 // ---------------------------------------------------------------- shared contracts
@@ -12,7 +12,7 @@ import (
 // Shared contracts deployed at 0x1.  Every generated program imports them, so their checked programs,
 // elaborations, sema types (with lazily filled member / type-ID / entitlement-image caches) and, for the
 // VM, their compiled code are shared by all goroutines.
-func baseContract(r *lib.Rng) string {
+func C36BaseContract(r *Rng) string {
 	k := func() int { return 1 + r.Intn(9) }
 	return fmt.Sprintf(`
 access(all) contract Base {
@@ -67,11 +67,6 @@ access(all) contract Base {
         emit Made(id: v, tag: "r")
         return <- create R(v)
     }
-    access(all) enum Color: UInt8 {
-        access(all) case red
-        access(all) case green
-        access(all) case blue
-    }
     access(all) fun sumRange(_ a: Int, _ b: Int): Int {
         var s = 0
         for i in InclusiveRange(a, b) { s = s + i }
@@ -84,7 +79,7 @@ access(all) contract Base {
 `, k(), k(), k(), k(), 10+r.Intn(90))
 }
 
-func libContract(r *lib.Rng) string {
+func C36LibContract(r *Rng) string {
 	k := func() int { return 1 + r.Intn(9) }
 	return fmt.Sprintf(`
 import Base from 0x1
@@ -128,13 +123,34 @@ access(all) contract Lib {
 `, k(), r.Intn(200))
 }
 
+// C36ColContract declares an enum.  Compiling a program with an enum declaration for the VM writes into the
+// shared sema.Elaboration (known finding of C36), so programs importing it are marked HasEnum and the C36
+// harness runs them with the VM only in its dedicated probe.
+func C36ColContract(r *Rng) string {
+	return fmt.Sprintf(`
+access(all) contract Col {
+    access(all) enum Color: UInt8 {
+        access(all) case red
+        access(all) case green
+        access(all) case blue
+    }
+    access(all) fun pick(_ i: Int): Color {
+        return Color(rawValue: UInt8(i %% 3)) ?? Color.red
+    }
+    access(all) let seed: Int
+    init() { self.seed = %d }
+}
+`, r.Intn(100))
+}
+
 // ---------------------------------------------------------------- programs
 
-type Program struct {
+type C36Program struct {
 	ID    string `json:"id"`
 	Kind  string `json:"kind"` // script | tx
 	Src   string `json:"src"`
 	Forms []string `json:"forms"`
+	HasEnum bool `json:"has_enum"`
 }
 
 var intTypes = []string{"Int", "Int8", "Int16", "Int32", "Int64", "Int128", "Int256",
@@ -146,12 +162,12 @@ var typeExprs = []string{
 	"fun(Int): String", "auth(Base.E1) &Base.Outer", "auth(Base.E1, Base.E2) &Base.Outer",
 	"auth(Base.E1 | Base.E2) &Base.R", "Capability<&Base.R>", "[{Base.Shape}; 2]", "&{Base.HasVal}",
 	"@Base.R", "Lib.Box", "InclusiveRange<Int>", "UFix64", "Fix64", "Character", "Path", "Type",
-	"&[Int]", "auth(Mutate) &[Int]", "{Int: [String?]}", "Base.Color", "AnyStruct", "&AnyResource",
+	"&[Int]", "auth(Mutate) &[Int]", "{Int: [String?]}", "AnyStruct", "&AnyResource",
 	"fun(auth(Base.E1) &Base.R, Int): Int", "Capability", "&Account", "auth(Storage) &Account",
 }
 
 // snippet returns statements appending strings to `out` (and the name of the form).
-func snippet(r *lib.Rng, n int) (string, string) {
+func snippet(r *Rng, n int) (string, string) {
 	a, b := r.Intn(12), 1+r.Intn(9)
 	v := fmt.Sprintf("v%d", n)
 	switch r.Intn(30) {
@@ -168,7 +184,7 @@ func snippet(r *lib.Rng, n int) (string, string) {
 	case 5:
 		return fmt.Sprintf("let %s <- Base.makeR(%d)\n let %sr = &%s as auth(Base.E1) &Base.R\n %sr.inc(%d)\n out.append(Lib.bumpR(%sr, %d).toString())\n out.append(%s.val().toString())\n destroy %s", v, a, v, v, v, b, v, a, v, v), "resource"
 	case 6, 7, 8:
-		t := lib.Pick(r, intTypes)
+		t := Pick(r, intTypes)
 		lo, hi, st := r.Intn(4), 4+r.Intn(6), 1+r.Intn(3)
 		if r.Bool() && !strings.HasPrefix(t, "U") && !strings.HasPrefix(t, "W") {
 			return fmt.Sprintf("var %s: %s = 0\n for i in InclusiveRange<%s>(%d, -%d, step: -%d) { %s = %s + i }\n out.append(%s.toString())", v, t, t, hi, lo, st, v, v, v), "range-down:" + t
@@ -183,15 +199,15 @@ func snippet(r *lib.Rng, n int) (string, string) {
 	case 12:
 		return fmt.Sprintf("let %s: Int? = %d\n out.append((%s.map(fun (x: Int): Int { return x + %d }) ?? 0).toString())\n let %sa: Address = 0x%d\n out.append(%sa.toString())\n out.append(%sa.toBytes().length.toString())", v, a, v, b, v, b, v, v), "optional-address"
 	case 13, 14:
-		t := lib.Pick(r, typeExprs)
-		t2 := lib.Pick(r, typeExprs)
+		t := Pick(r, typeExprs)
+		t2 := Pick(r, typeExprs)
 		return fmt.Sprintf("out.append(Type<%s>().identifier)\n out.append(Type<%s>().isSubtype(of: Type<%s>()).toString())\n out.append((Type<%s>() == Type<%s>()).toString())", t, t, t2, t, t2), "type-id"
 	case 15:
 		return fmt.Sprintf("let %s: {Base.Shape} = Base.Sq(%d)\n out.append(%s.getType().identifier)\n out.append(%s.isInstance(Type<Base.Sq>()).toString())\n if let q = %s as? Base.Sq { out.append(q.s.toString()) }\n out.append([%s].getType().identifier)", v, a, v, v, v, v), "cast"
 	case 16:
 		return fmt.Sprintf("let %s: UFix64 = %d.5\n out.append((%s * 2.25).toString())\n let %sf: Fix64 = -%d.125\n out.append((%sf / 2.0).toString())\n out.append(%s.toBigEndianBytes().length.toString())", v, a, v, v, b, v, v), "fixed-point"
 	case 17:
-		return fmt.Sprintf("out.append((Base.Color(rawValue: %d)?.rawValue ?? 99).toString())\n out.append(Base.Color.green.rawValue.toString())", r.Intn(5)), "enum"
+		return fmt.Sprintf("out.append((Col.Color(rawValue: %d)?.rawValue ?? 99).toString())\n out.append(Col.Color.green.rawValue.toString())\n out.append(Col.pick(%d).rawValue.toString())", r.Intn(5), r.Intn(3)), "enum"
 	case 18:
 		return fmt.Sprintf("let %s = [1, 2]\n out.append(%s[%d].toString())", v, v, r.Intn(4)), "index(maybe-oob)"
 	case 19:
@@ -203,12 +219,12 @@ func snippet(r *lib.Rng, n int) (string, string) {
 	case 22:
 		return fmt.Sprintf("let %s: [{Base.Shape}] = [Base.Sq(%d), Lib.Box(%d), Base.Rect(%d, %d)]\n for x in %s { out.append(x.name()); out.append(x.area().toString()) }", v, a, b, a, b, v), "interfaces"
 	case 23:
-		t := lib.Pick(r, intTypes)
+		t := Pick(r, intTypes)
 		return fmt.Sprintf("let %s: %s = %d\n out.append(%s.toString())\n out.append(%s.toBigEndianBytes().length.toString())\n out.append((%s %% 3).toString())\n out.append(%s(%d).toString())", v, t, a, v, v, v, t, b), "int-members:" + t
 	case 24:
 		return fmt.Sprintf("let %s = [%d, %d]\n let %sr = &%s as auth(Mutate) &[Int]\n %sr.append(%d)\n out.append(%sr.length.toString())\n let %sq = &%s as &[Int]\n out.append(%sq[0].toString())", v, a, b, v, v, v, a, v, v, v, v), "array-ref"
 	case 25:
-		return fmt.Sprintf("let %s: Int? = %s\n out.append(%s!.toString())", v, lib.Pick(r, []string{"nil", "1", "2"}), v), "force(maybe-nil)"
+		return fmt.Sprintf("let %s: Int? = %s\n out.append(%s!.toString())", v, Pick(r, []string{"nil", "1", "2"}), v), "force(maybe-nil)"
 	case 26:
 		return fmt.Sprintf("let %s <- Base.makeR(%d)\n let %sh: &{Base.HasVal} = &%s\n out.append(%sh.val().toString())\n out.append(%sh.getType().identifier)\n destroy %s", v, a, v, v, v, v, v), "intersection-ref"
 	case 27:
@@ -220,8 +236,53 @@ func snippet(r *lib.Rng, n int) (string, string) {
 	}
 }
 
+// numericSnippet: integer-heavy statements for the metering property: InclusiveRange of every integer type (the
+// only user of the interpreter's small-integer value cache: its 0 and 1 of the element type), default and
+// explicit steps, values around the int8 / 64-bit / 128-bit boundaries, big-integer arithmetic, conversions.
+func numericSnippet(r *Rng, n int) (string, string) {
+	v := fmt.Sprintf("n%d", n)
+	t := Pick(r, intTypes)
+	signed := strings.HasPrefix(t, "Int")
+	switch r.Intn(9) {
+	case 0: // default step (cached 1), contains (cached 0)
+		lo, hi := r.Intn(3), 3+r.Intn(5)
+		return fmt.Sprintf("let %s = InclusiveRange<%s>(%d, %d)\n var %ss: %s = 0\n for i in %s { %ss = %ss + i }\n out.append(%ss.toString())\n out.append(%s.contains(%d).toString())\n out.append(%s.step.toString())",
+			v, t, lo, hi, v, t, v, v, v, v, v, r.Intn(9), v), "num:range-default-step:" + t
+	case 1: // around the int8 boundary
+		lo := 120 + r.Intn(6)
+		if t == "Int8" {
+			return fmt.Sprintf("var %s: Int8 = 0\n for i in InclusiveRange<Int8>(%d, 127) { %s = i }\n out.append(%s.toString())", v, lo, v, v), "num:range-int8-max"
+		}
+		return fmt.Sprintf("var %s: %s = 0\n for i in InclusiveRange<%s>(%d, %d) { %s = i }\n out.append(%s.toString())", v, t, t, lo, lo+3+r.Intn(8), v, v), "num:range-around-127:" + t
+	case 2: // negative steps for signed types
+		if signed {
+			return fmt.Sprintf("var %s: %s = 0\n for i in InclusiveRange<%s>(%d, -%d, step: -%d) { %s = %s + i }\n out.append(%s.toString())", v, t, t, 2+r.Intn(4), 1+r.Intn(4), 1+r.Intn(2), v, v, v), "num:range-negative-step:" + t
+		}
+		return fmt.Sprintf("var %s: %s = 0\n for i in InclusiveRange<%s>(%d, 0, step: 1) { %s = %s + i }\n out.append(%s.toString())", v, t, t, r.Intn(3), v, v, v), "num:range-empty-or-single:" + t
+	case 3: // big integers
+		return fmt.Sprintf("let %s: Int = 18446744073709551615 + %d\n out.append((%s * %s).toString())\n out.append((%s / 3).toString())\n out.append((%s << %d).toString())\n let %su: UInt = UInt(%s)\n out.append((%su %% 1000000007).toString())",
+			v, r.Intn(5), v, v, v, v, 1+r.Intn(70), v, v, v), "num:big-int"
+	case 4: // 128/256 bit
+		w := Pick(r, []string{"Int128", "Int256", "UInt128", "UInt256", "Word128", "Word256"})
+		return fmt.Sprintf("let %s: %s = 170141183460469231731687303715884105727\n out.append((%s - %d).toString())\n out.append((%s / 7).toString())\n out.append(%s.toBigEndianBytes().length.toString())",
+			v, w, v, r.Intn(100), v, v), "num:wide:" + w
+	case 5: // conversions
+		return fmt.Sprintf("let %s: %s = %d\n out.append(Int(%s).toString())\n out.append(UInt64(%s).toString())\n out.append(Int256(%s).toString())\n out.append(UFix64(UInt8(%s %% 100)).toString())",
+			v, t, r.Intn(127), v, v, v, v), "num:convert:" + t
+	case 6: // parsing and formatting
+		return fmt.Sprintf("out.append((%s.fromString(\"%d\") ?? 0).toString())\n out.append((Int.fromString(\"-%d\") ?? 0).toString())\n out.append((%s.fromBigEndianBytes([%d]) ?? 0).toString())",
+			t, r.Intn(120), r.Intn(1000), t, r.Intn(120)), "num:from-string:" + t
+	case 7: // small literals of every width in arithmetic (the values the cache would hold)
+		return fmt.Sprintf("let %sa: %s = 0\n let %sb: %s = 1\n out.append((%sa + %sb).toString())\n out.append((%sb * %sb).toString())\n out.append((%sa < %sb).toString())",
+			v, t, v, t, v, v, v, v, v, v), "num:zero-one:" + t
+	default: // range values stored and reused
+		return fmt.Sprintf("let %s = InclusiveRange<%s>(0, %d, step: %d)\n out.append(%s.start.toString())\n out.append(%s.end.toString())\n out.append(%s.contains(%d).toString())\n out.append(%s.getType().identifier)",
+			v, t, 10+r.Intn(100), 1+r.Intn(7), v, v, v, r.Intn(100), v), "num:range-fields:" + t
+	}
+}
+
 // badSnippet returns an ill-typed statement (each gives at least one checker error).
-func badSnippet(r *lib.Rng, n int) (string, string) {
+func badSnippet(r *Rng, n int) (string, string) {
 	v := fmt.Sprintf("b%d", n)
 	switch r.Intn(8) {
 	case 0:
@@ -243,8 +304,8 @@ func badSnippet(r *lib.Rng, n int) (string, string) {
 	}
 }
 
-func genProgram(r *lib.Rng, id int) Program {
-	p := Program{ID: fmt.Sprintf("p%03d", id)}
+func C36GenProgram(r *Rng, id int, numeric bool) C36Program {
+	p := C36Program{ID: fmt.Sprintf("p%03d", id)}
 	n := 2 + r.Intn(6)
 	var body []string
 	for i := 0; i < n; i++ {
@@ -258,9 +319,25 @@ func genProgram(r *lib.Rng, id int) Program {
 		body = append(body[:pos], append([]string{s}, body[pos:]...)...)
 		p.Forms = append(p.Forms, f)
 	}
+	if numeric {
+		for i := 0; i < 2+r.Intn(4); i++ {
+			s, f := numericSnippet(r, 100+i)
+			pos := r.Intn(len(body) + 1)
+			body = append(body[:pos], append([]string{s}, body[pos:]...)...)
+			p.Forms = append(p.Forms, f)
+		}
+	}
+	for _, f := range p.Forms {
+		if f == "enum" {
+			p.HasEnum = true
+		}
+	}
 	imports := "import Base from 0x1\nimport Lib from 0x1\n"
 	if r.Chance(1, 6) {
 		imports = "import Lib from 0x1\nimport Base from 0x1\n"
+	}
+	if p.HasEnum {
+		imports += "import Col from 0x1\n"
 	}
 	stmts := " " + strings.Join(body, "\n ")
 	if r.Chance(1, 4) {
@@ -295,14 +372,14 @@ access(all) fun main(): [String] {
 }
 
 // mutateSource produces a lexer/parser input that is usually not a valid program.
-func mutateSource(r *lib.Rng, s string) string {
+func C36MutateSource(r *Rng, s string) string {
 	b := []byte(s)
 	switch r.Intn(5) {
 	case 0:
 		return string(b[:r.Intn(len(b)+1)])
 	case 1:
 		i := r.Intn(len(b))
-		return string(b[:i]) + lib.Pick(r, []string{"/*", "\"", "\\(", "{", ")", "0x", "é", "\"\\(a", "// c\n"}) + string(b[i:])
+		return string(b[:i]) + Pick(r, []string{"/*", "\"", "\\(", "{", ")", "0x", "é", "\"\\(a", "// c\n"}) + string(b[i:])
 	case 2:
 		i, j := r.Intn(len(b)), r.Intn(len(b))
 		if i > j {
